@@ -31,7 +31,8 @@ func (p *c16) Rule() string {
 	return "cases: (gen) a seeded current-version flow model (1-7 nodes, 24 action types, switch/random routers with msg/dial waits, several languages, templating) rendered at 13.0 .. 13.6 by the inverse of every registered migration, all clauses on every rendering; " +
 		"(legacy) a legacy flow assembled from the action/ruleset/test library in legacy/testdata with rewired destinations (rules of one category share a destination); " +
 		"(seed) every definition found in goflow's own testdata; (tmpl) template-heavy flows for the 13.3 @webhook rewrite; " +
-		"(fault) one seed definition x a slice of its JSON paths x {delete,null,\"\",0,true,[],{},-1,float,[null],{nulls},nested,expression,long string,wrong-typed neighbour,other uuid,not-a-uuid,duplicate element} plus byte truncation at every offset; (rand) multi-faults, raw bytes, token soup, splices. " +
+		"(fault) one seed definition x a slice of its JSON paths x {delete,null,\"\",0,true,[],{},-1,float,[null],{nulls},nested,expression,long string,wrong-typed neighbour,other uuid,not-a-uuid,duplicate element; at node/action/exit UUIDs also: the UUID of a near and of a far node, action and exit} plus byte truncation at every offset; (rand) multi-faults, raw bytes, token soup, splices, UUID reuse. " +
+		"Every gen / legacy case also feeds UUID-reuse mutants of its own (valid) definition: one node, action or exit given the UUID of another thing of any kind; every accepted flow must have pairwise distinct node/action/exit UUIDs. " +
 		"Non-trivial: valid input = at least one node and migration changed at least one byte; fault case = at least one mutant got past the header/legacy sniffing (structurally plausible). Distinct = distinct definition text / (seed, slice)."
 }
 
@@ -129,6 +130,7 @@ func (p *c16) Directed() []string {
 	return []string{
 		"known:legacy-subflow-config-empty", "known:router-cases-null", "legacy-form-field-operand", "number-literal-scale", "current-untouched", "webhook-templates", "dial-wait-phone",
 		"legacy-shared-category", "long-names", "und-language", "templating-shapes", "hostile-bytes", "own-testdata-pairs",
+		"uuid-reuse-13x", "uuid-reuse-legacy",
 	}
 }
 
@@ -141,6 +143,9 @@ func (p *c16) Floors(tier string) []string {
 		"clause.migrates.13.0", "clause.migrates.13.1", "clause.migrates.13.2", "clause.migrates.13.3", "clause.migrates.13.4", "clause.migrates.13.5", "clause.migrates.legacy",
 		"fault.mutants", "fault.returned_error", "fault.accepted", "fault.paths", "fault.kind.delete", "fault.kind.null", "fault.kind.truncate", "fault.kind.neighbour", "fault.kind.raw-bytes",
 		"long_names.truncated", "language.replaced_by_und",
+		"clause.uuid_unique.checked", "uuid_reuse.mutants", "uuid_reuse.cross_kind", "uuid_reuse.rejected",
+		"fault.kind.uuid-reuse.exit=node", "fault.kind.uuid-reuse.action=node", "fault.kind.uuid-reuse.node=exit", "fault.kind.uuid-reuse.node=action",
+		"fault.kind.uuid-reuse.node=node", "fault.kind.uuid-reuse.action=action", "fault.kind.uuid-reuse.exit=exit", "fault.kind.uuid-reuse.action=exit", "fault.kind.uuid-reuse.exit=action",
 	}
 }
 
@@ -209,7 +214,9 @@ func (p *c16) Run(c fw.Case) fw.Result {
 	}
 	pl := p.plan(c.Tier)
 	kind, i := pl.locate(c.Gen)
-	r := fw.NewRand(c.Seed, "C16", c.Index)
+	// the stream of generated case g is that of list index g + 13: the 13 directed cases the list began with when
+	// the generators were written; directed cases added later do not change what a generated index produces
+	r := fw.NewRand(c.Seed, "C16", c.Gen+directedAtGenesis)
 	res.Count("cases."+kind, 1)
 	switch kind {
 	case "gen", "tmpl":
@@ -227,6 +234,13 @@ func (p *c16) Run(c fw.Case) fw.Result {
 	}
 	return res
 }
+
+const directedAtGenesis = 13
+
+// UUID-reuse mutants per source version of a gen case / per legacy case / per rand case
+const genReuseMutants = 4
+const legacyReuseMutants = 6
+const randReuseMutants = 24
 
 func minorName(m int) string { return fmt.Sprintf("13.%d", m) }
 
@@ -266,6 +280,12 @@ func (p *c16) runGen(c fw.Case, ck *checker, r *fw.Rand, heavy bool) {
 		if out != nil && minor <= 5 {
 			p.observeMigration(res, model, rd, out)
 		}
+	}
+	// UUID reuse on this (valid) definition at two source versions: every mutant names one thing twice
+	fr := &faultRunner{res: res, ck: ck, label: c.ID() + " gen"}
+	for _, minor := range []int{r.Intn(6), 6} {
+		fr.label = fmt.Sprintf("%s gen@%s", c.ID(), minorName(minor))
+		fr.reuseRandom(r, buildSeedTree(model.render(minor).JSON), genReuseMutants)
 	}
 	res.NonTrivial = len(model.Nodes) > 0 && changed
 	if c.Gen < 3 {
@@ -393,6 +413,10 @@ func (p *c16) runLegacy(c fw.Case, ck *checker, r *fw.Rand) {
 	}
 	in := &validInput{Label: c.ID() + " legacy-gen", Version: "legacy", Data: data, Legacy: true, Known: true, LegacyEx: ex, UUIDSeed: int64(r.U64() >> 1)}
 	out := ck.checkValid(in)
+	if out != nil {
+		fr := &faultRunner{res: res, ck: ck, label: c.ID() + " legacy-gen"}
+		fr.reuseRandom(r, buildSeedTree(data), legacyReuseMutants)
+	}
 	res.NonTrivial = out != nil && len(ex.Nodes) > 0
 	if c.Gen < 302 && out != nil {
 		res.Sample = map[string]any{"kind": "legacy", "nodes": len(ex.Nodes), "definition": clip(string(data), 1500)}
@@ -519,6 +543,7 @@ func (p *c16) runRand(c fw.Case, ck *checker, r *fw.Rand) {
 	fr := &faultRunner{res: res, ck: ck, label: c.ID() + " " + label}
 	n := 250
 	fr.randomFaults(r, st, n)
+	fr.reuseRandom(r, st, randReuseMutants)
 	res.Fingerprint = fmt.Sprintf("rand:%s:%x", label, fw.Hash64(string(data)))
 	res.NonTrivial = fr.plaus > 0
 }
